@@ -1,6 +1,7 @@
 use super::request_matcher::{DateTimeCondition, HeaderValueCondition};
 use super::route::Route;
 use serde::Serialize;
+use std::collections::HashSet;
 use std::sync::Arc;
 
 #[derive(Serialize, Debug, Clone)]
@@ -86,6 +87,10 @@ impl<T> Trace<T> {
                 routes.extend(Trace::get_routes_from_traces(&trace.children));
             }
         }
+
+        // A route stored in several branches (e.g. several matching ip ranges) is only matched once
+        let mut ids = HashSet::new();
+        routes.retain(|route| ids.insert(route.id().to_string()));
 
         routes
     }
